@@ -253,6 +253,10 @@ C05_Rule ==
                ELSE cur[Rcv].role # pre[Rcv].role /\ Emitted = {}
     /\ cur[Rcv].sel = pre[Rcv].sel
     /\ \A p \in Rng(cur[Rcv].pairs) : \A qq \in Rng(pre[Rcv].pairs) : p.id = qq.id => (p.st = qq.st /\ p.nom = qq.nom /\ p.nos = qq.nos)
+\* ... and nothing else moves a role: "resolve by tie-breaker" leaves no room for a switch on a request that is not authenticated,
+\* does not carry the receiver's role, or wins the comparison (Dial/Accept set the role the application asked for)
+C05_SwitchOnlyOnConflict ==
+  \A a \in Agents : (cur[a].role # pre[a].role /\ ev.ev \notin {"Reset", "Start"}) => (Conflict /\ ~Keeps /\ Rcv = a)
 \* two agents that started in the same role with distinct tie-breakers are in opposite roles after the fair suffix
 C05_OppositeAtEnd == (ev.ev = "DrainEnd" /\ CanConverge(ev.pre)) => cur["A"].role # cur["B"].role
 \* ---------------------------------------------------------------- C06
@@ -412,7 +416,7 @@ P(n) == CASE n = "C01_Mirror" -> C01_Mirror []
         n = "C03_NoUCFromControlled" -> C03_NoUCFromControlled []
         n = "C03_LiteNeverRequests" -> C03_LiteNeverRequests []
         n = "C03_NoDowngrade" -> C03_NoDowngrade []
-        n = "C05_Rule" -> C05_Rule []
+        n = "C05_Rule" -> C05_Rule [] n = "C05_SwitchOnlyOnConflict" -> C05_SwitchOnlyOnConflict []
         n = "C05_OppositeAtEnd" -> C05_OppositeAtEnd []
         n = "C06_UniqueIds" -> C06_UniqueIds []
         n = "C06_NoDupPairs" -> C06_NoDupPairs []
